@@ -14,9 +14,13 @@ import CE.Props.C02
   call spellable:
   * `time_accepted_iff_spellable` — for every time value;
   * `line_comment_accepted_iff_spellable` — for every single-line comment;
+  * `block_comment_accepted_iff_spellable` — for every multi-line comment (any nesting): the
+    validator's scan and the grammar's scan are the same computation (`scan_go`, by functional
+    induction on the validator's scan);
   and string contents survive the escaping layer (C02 `encoder_strings_roundtrip`).
-  `_partial`: the same equivalence for media types and multi-line comments is exercised by the
-  RULES / WF.REL lines of C10 (both definitions run on every case), not yet a theorem.
+  * `media_type_accepted_iff_spellable` — for every media type (any bytes): the validator's
+    index-based check and the grammar's FIRST NEXT* '/' NEXT+ are the same predicate; the
+    character classes are compared on all 128 ASCII values by the kernel (`char_classes`).
 -/
 namespace CE.Props.C03
 open CE CE.Rules
@@ -159,6 +163,328 @@ theorem line_comment_accepted_iff_spellable (s : Bytes) : commentOK false s = !S
   unfold commentOK Spec.commentBad
   by_cases h : Utf8.valid s <;> simp [h]
 
+theorem scan_base (f : Nat) (l : List Nat) (d d' : Nat) (en : Bool)
+    (h : commentScan f l d = some (d', en)) (hb : f = 0 ∨ l = []) : en = false := by
+  rcases hb with hb | hb
+  · subst hb; simp [commentScan] at h; exact h.2
+  · subst hb
+    cases f with
+    | zero => simp [commentScan] at h; exact h.2
+    | succ f => simp [commentScan] at h; exact h.2
+
+theorem go_other (f h : Nat) (r : List Nat) (d : Nat) (e : Bool)
+    (h1 : ∀ rest, h = 47 → r = 42 :: rest → False) (h2 : ∀ rest, h = 42 → r = 47 :: rest → False) :
+    Spec.commentBad.go (f + 1) (h :: r) d e = Spec.commentBad.go f r d false := by
+  conv => lhs; unfold Spec.commentBad.go
+  split
+  · rename_i heq; simp at heq
+  · rename_i _ heq; simp at heq
+  · rename_i heq1 heq; simp at heq heq1; obtain ⟨a, b⟩ := heq; exact (h1 _ a b).elim
+  · rename_i heq1 heq; simp at heq heq1; obtain ⟨a, b⟩ := heq; exact (h2 _ a b).elim
+  · rename_i heq1 heq; simp at heq heq1; obtain ⟨a, b⟩ := heq; subst heq1; subst b; rfl
+
+/-- the validator's scan and the grammar's scan of a block comment are the same computation -/
+theorem scan_go (f : Nat) (l : List Nat) (d : Nat) : ∀ (e : Bool),
+    match commentScan f l d with
+    | none => (Spec.commentBad.go f l d e).1 = true
+    | some (d', en) => Spec.commentBad.go f l d e = (false, d', if f = 0 ∨ l = [] then e else en) := by
+  fun_induction commentScan f l d
+  case case1 => intro e; simp [Spec.commentBad.go]
+  case case2 => intro e; simp [Spec.commentBad.go]
+  case case3 f rest depth ih =>
+    intro e
+    have ih := ih false
+    cases h : commentScan f rest (depth + 1) with
+    | none => simp only [h] at ih ⊢; simpa [Spec.commentBad.go] using ih
+    | some p =>
+      obtain ⟨d', en⟩ := p
+      simp only [h] at ih ⊢
+      simp only [Spec.commentBad.go]
+      rw [ih]
+      by_cases hb : f = 0 ∨ rest = []
+      · have := scan_base _ _ _ _ _ h hb
+        simp [hb, this]
+      · simp [hb]
+  case case4 => intro e; simp [Spec.commentBad.go]
+  case case5 f depth hd =>
+    intro e
+    cases f with
+    | zero => simp [Spec.commentBad.go, hd]
+    | succ f => simp [Spec.commentBad.go, hd]
+  case case6 f rest depth hd hne ih =>
+    intro e
+    have ih := ih rest.isEmpty
+    have hemp : rest.isEmpty = false := by cases rest with | nil => exact (hne rfl).elim | cons _ _ => rfl
+    cases h : commentScan f rest (depth - 1) with
+    | none => simp only [h] at ih ⊢; simpa [Spec.commentBad.go, hd] using ih
+    | some p =>
+      obtain ⟨d', en⟩ := p
+      simp only [h] at ih ⊢
+      simp only [Spec.commentBad.go, hd, if_false]
+      rw [ih]
+      have hr : ¬ rest = [] := fun h => hne h
+      by_cases hb : f = 0
+      · have := scan_base _ _ _ _ _ h (.inl hb)
+        simp [hb, this, hemp]
+      · simp [hb, hr]
+  case case7 f head rest depth h1 h2 ih =>
+    intro e
+    have ih := ih false
+    rw [go_other f head rest depth e h1 h2]
+    cases h : commentScan f rest depth with
+    | none => simp only [h] at ih ⊢; exact ih
+    | some p =>
+      obtain ⟨d', en⟩ := p
+      simp only [h] at ih ⊢
+      rw [ih]
+      by_cases hb : f = 0 ∨ rest = []
+      · have := scan_base _ _ _ _ _ h hb
+        simp [hb, this]
+      · simp [hb]
+
+/-- multi-line comments: accepted exactly when the text format can spell them -/
+theorem block_comment_accepted_iff_spellable (s : Bytes) : commentOK true s = !Spec.commentBad true s := by
+  unfold commentOK Spec.commentBad
+  by_cases hv : Utf8.valid s
+  · simp only [hv, Bool.true_and, Bool.not_true, if_true]
+    have := scan_go (s.length + 1) (s.map (·.toNat)) 0 false
+    cases h : commentScan (s.length + 1) (s.map (·.toNat)) 0 with
+    | none =>
+      simp only [h] at this
+      generalize Spec.commentBad.go (s.length + 1) (s.map (·.toNat)) 0 false = g at this
+      obtain ⟨a, b, c⟩ := g
+      simp at this
+      simp [this]
+    | some p =>
+      obtain ⟨d', en⟩ := p
+      simp only [h] at this
+      rw [this]
+      have hen : (if s.length + 1 = 0 ∨ s.map (·.toNat) = [] then false else en) = en := by
+        by_cases hb : s.length + 1 = 0 ∨ s.map (·.toNat) = []
+        · rw [if_pos hb]; exact (scan_base _ _ _ _ _ h hb).symm
+        · rw [if_neg hb]
+      rw [hen]
+      simp only [bne, Bool.false_or]
+      generalize (d' == 0) = A
+      generalize (Option.map (fun x : UInt8 => x.toNat) s.getLast? == some 47) = L
+      cases A <;> cases L <;> cases en <;> rfl
+  · simp [hv]
+
+
+/-- bytes below 128: the grammar's character classes are the validator's numeric ranges -/
+theorem char_classes : ∀ b : Fin 128,
+    (Char.ofNat b.val).isAlpha = ((97 ≤ b.val && b.val ≤ 122) || (65 ≤ b.val && b.val ≤ 90)) ∧
+    Spec.mediaNext (Char.ofNat b.val) = mediaTypeChar b.val ∧
+    decide (Char.ofNat b.val ≠ (Char.ofNat 47)) = decide (b.val ≠ 47) := by decide +kernel
+
+theorem split47 : ∀ l : List Nat,
+    (47 ∉ l ∧ l.idxOf? 47 = none) ∨
+    ∃ pre post, l = pre ++ 47 :: post ∧ 47 ∉ pre ∧ l.idxOf? 47 = some pre.length
+  | [] => .inl (by simp [List.idxOf?])
+  | a :: l => by
+    by_cases ha : a = 47
+    · subst ha
+      exact .inr ⟨[], l, rfl, by simp, by simp [List.idxOf?, List.findIdx?_cons]⟩
+    · rcases split47 l with ⟨h1, h2⟩ | ⟨pre, post, h1, h2, h3⟩
+      · left
+        refine ⟨by simp [ha, h1]; exact fun h => ha h.symm, ?_⟩
+        simp only [List.idxOf?] at h2 ⊢
+        rw [List.findIdx?_cons]
+        simp [ha, h2]
+      · right
+        refine ⟨a :: pre, post, by simp [h1], by simp [h2]; exact fun h => ha h.symm, ?_⟩
+        simp only [List.idxOf?] at h3 ⊢
+        rw [List.findIdx?_cons]
+        simp [ha, h3]
+
+theorem zipIdx_all_after (C : Nat → Bool) (k : Nat) : ∀ (post : List Nat) (m : Nat), k < m →
+    (post.zipIdx m).all (fun p => p.2 == k || C p.1) = post.all C
+  | [], m, h => by simp
+  | a :: post, m, h => by
+    have := zipIdx_all_after C k post (m + 1) (by omega)
+    simp only [List.zipIdx_cons, List.all_cons, this]
+    have : (m == k) = false := by simp; omega
+    simp [this]
+
+theorem zipIdx_all_split (C : Nat → Bool) : ∀ (pre post : List Nat) (n : Nat),
+    ((pre ++ 47 :: post).zipIdx n).all (fun p => p.2 == n + pre.length || C p.1) = (pre.all C && post.all C)
+  | [], post, n => by
+    simp only [List.nil_append, List.zipIdx_cons, List.all_cons, List.length_nil, Nat.add_zero, beq_self_eq_true,
+      Bool.true_or, Bool.true_and, List.all_nil]
+    exact zipIdx_all_after C n post (n + 1) (by omega)
+  | a :: pre, post, n => by
+    have := zipIdx_all_split C pre post (n + 1)
+    simp only [List.cons_append, List.zipIdx_cons, List.all_cons, List.length_cons]
+    have h1 : (n == n + (pre.length + 1)) = false := by simp
+    have h2 : n + (pre.length + 1) = n + 1 + pre.length := by omega
+    rw [h1, h2, this]
+    simp [Bool.and_assoc]
+
+
+theorem span_loop_all {α} (p : α → Bool) : ∀ (l acc : List α), l.all p = true →
+    List.span.loop p l acc = (acc.reverse ++ l, [])
+  | [], acc, _ => by simp [List.span.loop]
+  | a :: l, acc, h => by
+    simp only [List.all_cons, Bool.and_eq_true] at h
+    simp only [List.span.loop, h.1]
+    rw [span_loop_all p l (a :: acc) h.2]
+    simp
+
+theorem span_loop_split {α} (p : α → Bool) (x : α) (hx : p x = false) : ∀ (pre post acc : List α), pre.all p = true →
+    List.span.loop p (pre ++ x :: post) acc = (acc.reverse ++ pre, x :: post)
+  | [], post, acc, _ => by simp [List.span.loop, hx]
+  | a :: pre, post, acc, h => by
+    simp only [List.all_cons, Bool.and_eq_true] at h
+    simp only [List.cons_append, List.span.loop, h.1]
+    rw [span_loop_split p x hx pre post (a :: acc) h.2]
+    simp
+
+theorem span_all {α} (p : α → Bool) (l : List α) (h : l.all p = true) : l.span p = (l, []) := by
+  simp [List.span, span_loop_all p l [] h]
+
+theorem span_split {α} (p : α → Bool) (x : α) (hx : p x = false) (pre post : List α) (h : pre.all p = true) :
+    (pre ++ x :: post).span p = (pre, x :: post) := by
+  simp [List.span, span_loop_split p x hx pre post [] h]
+
+
+theorem cc (x : Nat) (h : x < 128) :
+    (Char.ofNat x).isAlpha = ((97 ≤ x && x ≤ 122) || (65 ≤ x && x ≤ 90)) ∧
+    Spec.mediaNext (Char.ofNat x) = mediaTypeChar x ∧
+    decide (Char.ofNat x ≠ (Char.ofNat 47)) = decide (x ≠ 47) := char_classes ⟨x, h⟩
+
+theorem slash_char : (Char.ofNat 47) = '/' := by decide
+
+theorem all_next (l : List Nat) (h : ∀ x ∈ l, x < 128) :
+    (l.map Char.ofNat).all Spec.mediaNext = l.all mediaTypeChar := by
+  induction l with
+  | nil => rfl
+  | cons a l ih =>
+    simp only [List.map_cons, List.all_cons]
+    rw [(cc a (h a (by simp))).2.1, ih (fun x hx => h x (by simp [hx]))]
+
+theorem all_not_slash (l : List Nat) (h : ∀ x ∈ l, x < 128) (h47 : 47 ∉ l) :
+    (l.map Char.ofNat).all (fun c => decide (c ≠ '/')) = true := by
+  induction l with
+  | nil => rfl
+  | cons a l ih =>
+    simp only [List.map_cons, List.all_cons, Bool.and_eq_true]
+    refine ⟨?_, ih (fun x hx => h x (by simp [hx])) (fun hm => h47 (by simp [hm]))⟩
+    have := (cc a (h a (by simp))).2.2
+    rw [slash_char] at this
+    rw [this]
+    simp
+    intro ha
+    exact h47 (by simp [ha])
+
+theorem high_not_media (x : Nat) (h : 128 ≤ x) : mediaTypeChar x = false := by
+  unfold mediaTypeChar
+  have h1 : (97 ≤ x && x ≤ 122) = false := by simp; omega
+  have h2 : (65 ≤ x && x ≤ 90) = false := by simp; omega
+  have h3 : (48 ≤ x && x ≤ 57) = false := by simp; omega
+  rw [h1, h2, h3]
+  simp
+  omega
+
+
+theorem mediaTypeOK_split (mt : Bytes) (pre post : List Nat)
+    (hl : mt.map (·.toNat) = pre ++ 47 :: post) (hidx : (mt.map (·.toNat)).idxOf? 47 = some pre.length) :
+    mediaTypeOK mt =
+      (decide (0 < pre.length) && decide (0 < post.length) &&
+       (match pre.head? with | some c => (97 ≤ c && c ≤ 122) || (65 ≤ c && c ≤ 90) | none => false) &&
+       (pre.all mediaTypeChar && post.all mediaTypeChar)) := by
+  unfold mediaTypeOK
+  simp only [hidx]
+  rw [hl]
+  have hz := zipIdx_all_split mediaTypeChar pre post 0
+  simp only [Nat.zero_add] at hz
+  rw [hz]
+  have hlen : (pre ++ 47 :: post).length - 1 = pre.length + post.length := by simp
+  rw [hlen]
+  have hhead : (pre ++ 47 :: post).head? = if pre = [] then some 47 else pre.head? := by
+    cases pre <;> simp
+  rw [hhead]
+  cases pre with
+  | nil => simp
+  | cons a pre' =>
+    simp only [List.length_cons, List.head?_cons]
+    have : decide (pre'.length + 1 < pre'.length + 1 + post.length) = decide (0 < post.length) := by
+      congr 1; apply propext; constructor <;> intro h <;> omega
+    simp [this]
+
+/-- media types: accepted exactly when the text format can spell them -/
+theorem media_type_accepted_iff_spellable (mt : Bytes) : mediaTypeOK mt = !Spec.mediaTypeBad mt := by
+  by_cases hhigh : mt.any (fun b => decide (b.toNat ≥ 128)) = true
+  · -- a byte outside ASCII: the grammar cannot spell it, and the validator rejects it
+    have hbad : Spec.mediaTypeBad mt = true := by unfold Spec.mediaTypeBad; rw [if_pos hhigh]
+    rw [hbad]
+    simp only [Bool.not_true]
+    rw [List.any_eq_true] at hhigh
+    obtain ⟨b, hb, hb128⟩ := hhigh
+    have hx : b.toNat ∈ mt.map (·.toNat) := List.mem_map.mpr ⟨b, hb, rfl⟩
+    have hx128 : 128 ≤ b.toNat := by simpa using hb128
+    rcases split47 (mt.map (·.toNat)) with ⟨_, hnone⟩ | ⟨pre, post, hl, _, hidx⟩
+    · unfold mediaTypeOK; simp only [hnone]
+    · rw [mediaTypeOK_split mt pre post hl hidx]
+      rw [hl] at hx
+      have hfail := high_not_media _ hx128
+      rcases List.mem_append.mp hx with hm | hm
+      · have : pre.all mediaTypeChar = false := by
+          rw [Bool.eq_false_iff]; intro hall; rw [List.all_eq_true] at hall; have := hall _ hm; rw [hfail] at this; cases this
+        simp [this]
+      · rcases List.mem_cons.mp hm with h47 | hm'
+        · omega
+        · have : post.all mediaTypeChar = false := by
+            rw [Bool.eq_false_iff]; intro hall; rw [List.all_eq_true] at hall; have := hall _ hm'; rw [hfail] at this; cases this
+          simp [this]
+  · -- ASCII only
+    have hlow : ∀ x ∈ mt.map (·.toNat), x < 128 := by
+      intro x hx
+      obtain ⟨b, hb, rfl⟩ := List.mem_map.mp hx
+      by_cases h : b.toNat < 128
+      · exact h
+      · exact (hhigh (List.any_eq_true.mpr ⟨b, hb, by simp; omega⟩)).elim
+    have hcs : mt.map (fun b => Char.ofNat b.toNat) = (mt.map (·.toNat)).map Char.ofNat := by simp
+    unfold Spec.mediaTypeBad
+    rw [if_neg hhigh]
+    simp only [hcs]
+    rcases split47 (mt.map (·.toNat)) with ⟨hnot, hnone⟩ | ⟨pre, post, hl, hpre, hidx⟩
+    · have hspan := span_all (fun c : Char => decide (c ≠ '/')) _ (all_not_slash _ hlow hnot)
+      rw [hspan]
+      unfold mediaTypeOK
+      simp only [hnone, Bool.not_true]
+    · rw [mediaTypeOK_split mt pre post hl hidx]
+      have hlowpre : ∀ x ∈ pre, x < 128 := fun x hx => hlow x (by rw [hl]; simp [hx])
+      have hlowpost : ∀ x ∈ post, x < 128 := fun x hx => hlow x (by rw [hl]; simp [hx])
+      rw [hl]
+      simp only [List.map_append, List.map_cons]
+      have hsl : decide (Char.ofNat 47 ≠ '/') = false := by decide
+      have hspan := span_split (fun c : Char => decide (c ≠ '/')) (Char.ofNat 47) hsl (pre.map Char.ofNat) (post.map Char.ofNat)
+        (all_not_slash pre hlowpre hpre)
+      rw [hspan]
+      have h47 : Char.ofNat 47 = '/' := by decide
+      simp only [h47]
+      rw [all_next post hlowpost]
+      cases pre with
+      | nil => simp
+      | cons f rest =>
+        have hf : f < 128 := hlowpre f (by simp)
+        have hrest : ∀ x ∈ rest, x < 128 := fun x hx => hlowpre x (by simp [hx])
+        simp only [List.map_cons, List.length_cons, List.head?_cons, List.all_cons]
+        rw [(cc f hf).1, all_next rest hrest]
+        -- a letter is a media-type character
+        have hletter : ((97 ≤ f && f ≤ 122) || (65 ≤ f && f ≤ 90)) = true → mediaTypeChar f = true := by
+          intro h; unfold mediaTypeChar; simp only [Bool.or_eq_true] at h ⊢
+          rcases h with h | h
+          · exact .inl (.inl (.inl h))
+          · exact .inl (.inl (.inr h))
+        cases hL : ((97 ≤ f && f ≤ 122) || (65 ≤ f && f ≤ 90))
+        · simp
+        · have := hletter hL
+          cases post with
+          | nil => simp
+          | cons p ps => simp [this]
+
+
 /-- non-vacuity -/
 example : timeOK { kind := 2, year := 2020, month := 2, day := 29, hour := 23, minute := 59, second := 60,
                    nanos := 999999999, zone := .area "Europe/Berlin".toUTF8.toList } = true ∧
@@ -166,4 +492,13 @@ example : timeOK { kind := 2, year := 2020, month := 2, day := 29, hour := 23, m
           timeOK { kind := 1, year := 0, month := 0, day := 0, hour := 1, minute := 0, second := 0, nanos := 0,
                    zone := .area "low".toUTF8.toList } = false := by decide +kernel
 
+end CE.Props.C03
+
+namespace CE.Props.C03
+open CE CE.Rules
+/-- non-vacuity of the media-type and block-comment theorems -/
+example : mediaTypeOK "application/vnd.api+json".toUTF8.toList = true ∧ mediaTypeOK "^a/b".toUTF8.toList = false ∧
+          mediaTypeOK "a/".toUTF8.toList = false ∧ mediaTypeOK "a b/c".toUTF8.toList = false ∧
+          commentOK true "a /* b */ c".toUTF8.toList = true ∧ commentOK true "a */ b".toUTF8.toList = false ∧
+          commentOK true "ends/".toUTF8.toList = false := by decide +kernel
 end CE.Props.C03
